@@ -519,7 +519,9 @@ pub fn suite_ts(t: &mut Tracer, tier: Tier, seed: u64) {
     // unknown and reserved settings inserted among known ones: the values of skipped settings look
     // like identifiers (reserved, known, GREASE) and must never be re-read as such
     let known: [(u64, u64); 3] = [(0x08, 1), (0x33, 1), (0x2b60_3742, 1)];
-    let unknown_ids = [0x09u64, 0x0a, 0x40, 0x1234, 0x12_3456, (1 << 40) + 9, (1 << 32) + 0x08, 0x108, 0x1_0033];
+    // (incl. wide ids whose low 8 / 16 / 32 bits are a RESERVED id 0, 2, 3, 4, 5: still just unknown)
+    let unknown_ids = [0x09u64, 0x0a, 0x40, 0x1234, 0x12_3456, (1 << 40) + 9, (1 << 32) + 0x08, 0x108, 0x1_0033,
+                       0x1_0000, 0x1_0002, 0x1_0003, 0x2_0004, 0x1_0005, 0x102, 0x1_0000_0000, (1 << 32) + 5, (1 << 40) + 2];
     let tricky_vals = [0x00u64, 0x02, 0x04, 0x05, 0x08, 0x33, 0x21, 0x2b60_3742, 0x1234, 1, (1 << 62) - 1];
     for uid in unknown_ids {
         for val in tricky_vals {
@@ -549,6 +551,15 @@ pub fn suite_ts(t: &mut Tracer, tier: Tier, seed: u64) {
             p.extend(gen::enc_varint(1));
             settings_dec(t, &p);
         }
+    }
+    // a close capsule followed by more bytes / another capsule in the same DATA payload: its own length bounds it
+    for tail in [vec![0x00u8], vec![0x21, 0x02, b'z', b'z'], gen::enc_varint(0x1234).into_iter().chain([0x00]).collect::<Vec<u8>>()] {
+        let mut c = gen::enc_varint(0x2843);
+        let body = [0u8, 0, 0, 9, b'b', b'y', b'e'];
+        c.extend(gen::enc_varint(body.len() as u64));
+        c.extend_from_slice(&body);
+        c.extend_from_slice(&tail);
+        capsule_dec(t, &c);
     }
     // unknown capsule types (payloads that look like close capsules) must be ignored
     for ty in [0x00u64, 0x2842, 0x2844, 0x78ae, 0x12843, (1 << 32) + 0x2843, 0x21] {
